@@ -8,13 +8,20 @@ def bodies (s : State) : Bytes := (s.reqs.map (·.2)).flatten
 
 structure Inv (s : State) : Prop where
   up : s.failed = false → bodies s ++ pendingUp s ++ s.wrQ.flatten = s.accepted.flatten
-  down : s.readOut.flatten ++ s.rdBuf ++ s.rdQ.flatten ++ pendingDown s = s.resps.flatten
+  down : s.readOut.flatten ++ s.rdBuf ++ s.rdQ.flatten ++ pendingDown s ++ s.dropped.flatten
+    = s.resps.flatten
+  drop : s.dropped ≠ [] → s.closed = true ∧ exited s = true
   rdwait : ∀ n, s.rd = .wait n → s.rdBuf = []
   bound : ∀ r ∈ s.reqs, r.2.length ≤ maxPayloadLength
   flight : s.reqs.length = s.answered + (if inFlight s then 1 else 0)
   sidc : ∀ r ∈ s.reqs, r.1 = s.sid
   qcap : s.wrQ.length ≤ maxChanBacklog ∧ s.rdQ.length ≤ maxChanBacklog
   fl : ∀ snd wrSz k, s.wpc = .flight snd wrSz k → wrSz ≤ maxPayloadLength
+
+theorem drop_nil {s : State} (h : Inv s) (hne : exited s = false) : s.dropped = [] := by
+  by_cases hd : s.dropped = []
+  · exact hd
+  · have := (h.drop hd).2; rw [hne] at this; cases this
 
 theorem inv_init (sid : Nat) : Inv (init sid) := by
   constructor <;> simp [init, bodies, pendingUp, pendingDown, inFlight]
@@ -24,13 +31,15 @@ theorem inv_pc (s t : State) (h : Inv s)
     (e1 : t.wrQ = s.wrQ) (e2 : t.rdQ = s.rdQ) (e3 : t.rdBuf = s.rdBuf) (e4 : t.rd = s.rd)
     (e5 : t.accepted = s.accepted) (e6 : t.reqs = s.reqs) (e7 : t.resps = s.resps)
     (e8 : t.answered = s.answered) (e9 : t.failed = s.failed) (e10 : t.readOut = s.readOut)
-    (e11 : t.sid = s.sid)
+    (e11 : t.sid = s.sid) (e12 : t.dropped = s.dropped) (e13 : s.closed = true → t.closed = true)
+    (e14 : exited s = true → exited t = true)
     (hup : pendingUp t = pendingUp s) (hdown : pendingDown t = pendingDown s)
     (hfl : inFlight t = inFlight s)
     (hflb : ∀ snd wrSz k, t.wpc = .flight snd wrSz k → wrSz ≤ maxPayloadLength) : Inv t := by
   constructor
   · rw [e9, bodies, e6, hup, e1, e5]; exact h.up
-  · rw [e10, e3, e2, hdown, e7]; exact h.down
+  · rw [e10, e3, e2, hdown, e7, e12]; exact h.down
+  · rw [e12]; exact fun hd => ⟨e13 (h.drop hd).1, e14 (h.drop hd).2⟩
   · rw [e4, e3]; exact h.rdwait
   · rw [e6]; exact h.bound
   · rw [e6, e8, hfl]; exact h.flight
@@ -43,10 +52,10 @@ theorem inv_writeCall (s : State) (b : Bytes) (h : Inv s) : Inv (stepWriteCall s
   split
   · exact h
   · split
-    · exact ⟨h.up, h.down, h.rdwait, h.bound, h.flight, h.sidc, h.qcap, h.fl⟩
+    · exact ⟨h.up, h.down, h.drop, h.rdwait, h.bound, h.flight, h.sidc, h.qcap, h.fl⟩
     · split
-      · exact ⟨h.up, h.down, h.rdwait, h.bound, h.flight, h.sidc, h.qcap, h.fl⟩
-      · exact ⟨h.up, h.down, h.rdwait, h.bound, h.flight, h.sidc, h.qcap, h.fl⟩
+      · exact ⟨h.up, h.down, h.drop, h.rdwait, h.bound, h.flight, h.sidc, h.qcap, h.fl⟩
+      · exact ⟨h.up, h.down, h.drop, h.rdwait, h.bound, h.flight, h.sidc, h.qcap, h.fl⟩
 
 theorem inv_writeEnq (s : State) (h : Inv s) : Inv (stepWriteEnq s) := by
   unfold stepWriteEnq
@@ -54,10 +63,10 @@ theorem inv_writeEnq (s : State) (h : Inv s) : Inv (stepWriteEnq s) := by
   · exact h
   · next b _ =>
     split
-    · exact ⟨h.up, h.down, h.rdwait, h.bound, h.flight, h.sidc, h.qcap, h.fl⟩
+    · exact ⟨h.up, h.down, h.drop, h.rdwait, h.bound, h.flight, h.sidc, h.qcap, h.fl⟩
     · split
       · next hlen =>
-        refine ⟨?_, h.down, h.rdwait, h.bound, h.flight, h.sidc, ?_, h.fl⟩
+        refine ⟨?_, h.down, h.drop, h.rdwait, h.bound, h.flight, h.sidc, ?_, h.fl⟩
         · intro hf
           have := h.up hf
           simp only [say, bodies, pendingUp] at this ⊢
@@ -73,9 +82,9 @@ theorem inv_readCall (fixed : Bool) (s : State) (n : Nat) (h : Inv s) :
   · exact h
   · next hrd =>
     split
-    · exact ⟨h.up, h.down, h.rdwait, h.bound, h.flight, h.sidc, h.qcap, h.fl⟩
+    · exact ⟨h.up, h.down, h.drop, h.rdwait, h.bound, h.flight, h.sidc, h.qcap, h.fl⟩
     · split
-      · refine ⟨h.up, ?_, ?_, h.bound, h.flight, h.sidc, h.qcap, h.fl⟩
+      · refine ⟨h.up, ?_, h.drop, ?_, h.bound, h.flight, h.sidc, h.qcap, h.fl⟩
         · have := h.down
           simp only [say, pendingDown] at this ⊢
           rw [List.flatten_append, ← this]
@@ -83,7 +92,7 @@ theorem inv_readCall (fixed : Bool) (s : State) (n : Nat) (h : Inv s) :
           rw [← List.append_assoc (s.rdBuf.take n), List.take_append_drop]
         · intro m hm; simp only [say] at hm; rw [hrd] at hm; cases hm
       · next hbuf =>
-        refine ⟨h.up, h.down, ?_, h.bound, h.flight, h.sidc, h.qcap, h.fl⟩
+        refine ⟨h.up, h.down, h.drop, ?_, h.bound, h.flight, h.sidc, h.qcap, h.fl⟩
         intro m _; simpa using hbuf
 
 theorem inv_readDeq (s : State) (h : Inv s) : Inv (stepReadDeq s) := by
@@ -94,7 +103,7 @@ theorem inv_readDeq (s : State) (h : Inv s) : Inv (stepReadDeq s) := by
     have hb := h.rdwait n hrd
     split
     · next b rest hq =>
-      refine ⟨?_, ?_, ?_, h.bound, h.flight, h.sidc, ?_, h.fl⟩
+      refine ⟨?_, ?_, h.drop, ?_, h.bound, h.flight, h.sidc, ?_, h.fl⟩
       · intro hf; have := h.up hf; simpa [say, bodies, pendingUp] using this
       · have := h.down
         simp only [say, pendingDown] at this ⊢
@@ -106,13 +115,15 @@ theorem inv_readDeq (s : State) (h : Inv s) : Inv (stepReadDeq s) := by
       · have := h.qcap; rw [hq] at this; simp only [say, List.length_cons] at this ⊢
         exact ⟨this.1, by omega⟩
     · split
-      · refine ⟨h.up, h.down, ?_, h.bound, h.flight, h.sidc, h.qcap, h.fl⟩
+      · refine ⟨h.up, h.down, h.drop, ?_, h.bound, h.flight, h.sidc, h.qcap, h.fl⟩
         intro m hm; simp [say] at hm
       · exact h
 
 theorem inv_close (s : State) (h : Inv s) : Inv (stepClose s) := by
   unfold stepClose
-  split <;> exact ⟨h.up, h.down, h.rdwait, h.bound, h.flight, h.sidc, h.qcap, h.fl⟩
+  split
+  · exact ⟨h.up, h.down, h.drop, h.rdwait, h.bound, h.flight, h.sidc, h.qcap, h.fl⟩
+  · exact ⟨h.up, h.down, fun hd => ⟨rfl, (h.drop hd).2⟩, h.rdwait, h.bound, h.flight, h.sidc, h.qcap, h.fl⟩
 
 theorem bodies_snoc (s : State) (r : Nat × Bytes) (t : State) (ht : t.reqs = s.reqs ++ [r]) :
     bodies t = bodies s ++ r.2 := by
@@ -122,7 +133,7 @@ theorem bodies_snoc (s : State) (r : Nat × Bytes) (t : State) (ht : t.reqs = s.
 theorem inv_issue (s : State) (snd : Bytes) (h : Inv s) (hpc : s.wpc = .coal snd) :
     Inv { s with reqs := s.reqs ++ [(s.sid, snd.take (min snd.length maxPayloadLength))],
                  wpc := .flight snd (min snd.length maxPayloadLength) 1 } := by
-  refine ⟨?_, ?_, h.rdwait, ?_, ?_, ?_, h.qcap, ?_⟩
+  refine ⟨?_, ?_, (fun hd => absurd (drop_nil h (by simp [exited, hpc])) hd), h.rdwait, ?_, ?_, ?_, h.qcap, ?_⟩
   · intro hf
     have := h.up hf
     simp only [pendingUp, hpc] at this
@@ -150,7 +161,7 @@ theorem inv_worker (s : State) (h : Inv s) : Inv (stepWorker s) := by
     split
     · next b rest hq =>
       split
-      · refine ⟨?_, ?_, h.rdwait, h.bound, ?_, h.sidc, ?_, ?_⟩
+      · refine ⟨?_, ?_, (fun hd => absurd (drop_nil h (by simp [exited, hpc])) hd), h.rdwait, h.bound, ?_, h.sidc, ?_, ?_⟩
         · intro hf
           have := h.up hf
           simp only [pendingUp, hpc, hq] at this
@@ -167,11 +178,11 @@ theorem inv_worker (s : State) (h : Inv s) : Inv (stepWorker s) := by
     split
     · next hb =>
       subst hb
-      apply inv_pc s _ h <;> first | rfl | simp [pendingUp, pendingDown, inFlight, hpc]
-    · apply inv_pc s _ h <;> first | rfl | simp [pendingUp, pendingDown, inFlight, hpc]
+      apply inv_pc s _ h <;> first | rfl | simp [pendingUp, pendingDown, inFlight, exited, hpc]
+    · apply inv_pc s _ h <;> first | rfl | simp [pendingUp, pendingDown, inFlight, exited, hpc]
   · next body hpc =>
     split
-    · refine ⟨?_, ?_, h.rdwait, h.bound, ?_, h.sidc, ?_, ?_⟩
+    · refine ⟨?_, ?_, (fun hd => absurd (drop_nil h (by simp [exited, hpc])) hd), h.rdwait, h.bound, ?_, h.sidc, ?_, ?_⟩
       · intro hf; have := h.up hf; simp only [pendingUp, hpc] at this; simpa [pendingUp, bodies] using this
       · have := h.down
         simp only [pendingDown, hpc] at this
@@ -181,9 +192,9 @@ theorem inv_worker (s : State) (h : Inv s) : Inv (stepWorker s) := by
       · simp only [List.length_append, List.length_cons, List.length_nil]; exact ⟨h.qcap.1, by omega⟩
       · intro snd' wrSz k hk; simp at hk
     · exact h
-  · next hpc => apply inv_pc s _ h <;> first | rfl | simp [pendingUp, pendingDown, inFlight, hpc]
-  · next hpc => apply inv_pc s _ h <;> first | rfl | simp [pendingUp, pendingDown, inFlight, hpc]
-  · next hpc => apply inv_pc s _ h <;> first | rfl | simp [pendingUp, pendingDown, inFlight, hpc]
+  · next hpc => apply inv_pc s _ h <;> first | rfl | simp [pendingUp, pendingDown, inFlight, exited, hpc]
+  · next hpc => apply inv_pc s _ h <;> first | rfl | simp [pendingUp, pendingDown, inFlight, exited, hpc]
+  · next hpc => apply inv_pc s _ h <;> first | rfl | simp [pendingUp, pendingDown, inFlight, exited, hpc]
   · exact h
   · exact h
   · exact h
@@ -199,13 +210,13 @@ theorem inv_step (fixed : Bool) (s : State) (c : Choice) (h : Inv s) : Inv (step
   | wTimer =>
     simp only [step]
     split
-    · next hpc => apply inv_pc s _ h <;> first | rfl | simp [pendingUp, pendingDown, inFlight, hpc]
+    · next hpc => apply inv_pc s _ h <;> first | rfl | simp [pendingUp, pendingDown, inFlight, exited, hpc]
     · exact h
   | wRecv =>
     simp only [step]
     split
     · next b rest hpc hq =>
-      refine ⟨?_, ?_, h.rdwait, h.bound, ?_, h.sidc, ?_, ?_⟩
+      refine ⟨?_, ?_, (fun hd => absurd (drop_nil h (by simp [exited, hpc])) hd), h.rdwait, h.bound, ?_, h.sidc, ?_, ?_⟩
       · intro hf
         have := h.up hf
         simp only [pendingUp, hpc, hq] at this
@@ -222,7 +233,23 @@ theorem inv_step (fixed : Bool) (s : State) (c : Choice) (h : Inv s) : Inv (step
     split
     · next hpc =>
       split
-      · apply inv_pc s _ h <;> first | rfl | simp [pendingUp, pendingDown, inFlight, hpc]
+      · apply inv_pc s _ h <;> first | rfl | simp [pendingUp, pendingDown, inFlight, exited, hpc]
+      · exact h
+    · next body hpc =>
+      split
+      · next hcl =>
+        have hd0 : s.dropped = [] := by
+          by_cases hd : s.dropped = []
+          · exact hd
+          · have := (h.drop hd).2; simp [exited, hpc] at this
+        refine ⟨?_, ?_, fun _ => ⟨hcl, rfl⟩, h.rdwait, h.bound, ?_, h.sidc, h.qcap, ?_⟩
+        · intro hf; have := h.up hf; simp only [pendingUp, hpc] at this; simpa [pendingUp, bodies] using this
+        · have := h.down
+          simp only [pendingDown, hpc, hd0] at this
+          simp only [pendingDown, hd0]
+          simpa using this
+        · have := h.flight; simp only [inFlight, hpc] at this; simpa [inFlight] using this
+        · intro snd' wrSz k hk; simp at hk
       · exact h
     · exact h
   | sOk body =>
@@ -230,11 +257,12 @@ theorem inv_step (fixed : Bool) (s : State) (c : Choice) (h : Inv s) : Inv (step
     split
     · next snd wrSz k hpc =>
       split
-      · refine ⟨?_, ?_, h.rdwait, h.bound, ?_, h.sidc, h.qcap, ?_⟩
+      · refine ⟨?_, ?_, (fun hd => absurd (drop_nil h (by simp [exited, hpc])) hd), h.rdwait, h.bound, ?_, h.sidc, h.qcap, ?_⟩
         · intro hf; have := h.up hf; simp only [pendingUp, hpc] at this; simpa [pendingUp, bodies] using this
         · have := h.down
-          simp only [pendingDown, hpc] at this
-          simp only [pendingDown, List.flatten_append, List.flatten_cons, List.flatten_nil, List.append_nil]
+          have hd0 := drop_nil h (by simp [exited, hpc])
+          simp only [pendingDown, hpc, hd0] at this
+          simp only [pendingDown, hd0, List.flatten_append, List.flatten_cons, List.flatten_nil, List.append_nil]
           rw [← this]; simp
         · have := h.flight; simp only [inFlight, hpc] at this
           simp only [inFlight]; simp at this ⊢; omega
@@ -247,7 +275,7 @@ theorem inv_step (fixed : Bool) (s : State) (c : Choice) (h : Inv s) : Inv (step
     · next snd wrSz k hpc =>
       have hw := h.fl snd wrSz k hpc
       split
-      · refine ⟨?_, ?_, h.rdwait, ?_, ?_, ?_, h.qcap, ?_⟩
+      · refine ⟨?_, ?_, (fun hd => absurd (drop_nil h (by simp [exited, hpc])) hd), h.rdwait, ?_, ?_, ?_, h.qcap, ?_⟩
         · intro hf; cases hf
         · have := h.down; simp only [pendingDown, hpc] at this; simpa [pendingDown] using this
         · intro r hr
@@ -261,7 +289,7 @@ theorem inv_step (fixed : Bool) (s : State) (c : Choice) (h : Inv s) : Inv (step
           · exact h.sidc r hr
           · simp at hr; subst hr; rfl
         · intro snd' wrSz' k' hk; simp at hk; omega
-      · refine ⟨?_, ?_, h.rdwait, h.bound, ?_, h.sidc, h.qcap, ?_⟩
+      · refine ⟨?_, ?_, (fun hd => absurd (drop_nil h (by simp [exited, hpc])) hd), h.rdwait, h.bound, ?_, h.sidc, h.qcap, ?_⟩
         · intro hf; cases hf
         · have := h.down; simp only [pendingDown, hpc] at this; simpa [pendingDown] using this
         · have := h.flight; simp only [inFlight, hpc] at this
@@ -272,7 +300,7 @@ theorem inv_step (fixed : Bool) (s : State) (c : Choice) (h : Inv s) : Inv (step
     simp only [step]
     split
     · next snd wrSz k hpc =>
-      refine ⟨?_, ?_, h.rdwait, h.bound, ?_, h.sidc, h.qcap, ?_⟩
+      refine ⟨?_, ?_, (fun hd => absurd (drop_nil h (by simp [exited, hpc])) hd), h.rdwait, h.bound, ?_, h.sidc, h.qcap, ?_⟩
       · intro hf; cases hf
       · have := h.down; simp only [pendingDown, hpc] at this; simpa [pendingDown] using this
       · have := h.flight; simp only [inFlight, hpc] at this
